@@ -62,7 +62,7 @@ def own_regen(ck, files):
     wgen = os.path.join(ck.work, "gen")
     shutil.rmtree(wgen, ignore_errors=True)
     os.makedirs(wgen)
-    order = [n for n in ("X86RegTables.v", "InstNames.v", "InstNameTables.v", "FmtSourceTables.v", "X86ExplainTables.v") if n in files]
+    order = [n for n in ("X86RegTables.v", "InstNames.v", "InstNameTables.v", "FmtSourceTables.v", "X86ExplainTables.v", "FmtEnumTables.v") if n in files]
     for n in order:
         open(os.path.join(wgen, n), "w").write(files[n])
     args = ["-Q", os.path.join(vlib.COQ, "theories"), "Verif", "-Q", wgen, "VerifGen", "-w", "-all"]
@@ -84,6 +84,7 @@ def run(ck):
     dl = out.split("\n")
     gen_dir = None
     failed = []
+    enum_tables_failed = False
     if rc != 0 or len(dl) < 2 or not dl[0].startswith("D "):
         ck.violation("C20/harness-crash", "harness failed on D/T: rc=%s %s" % (rc, (out + err)[-400:]), {"commands": ["D", "T"], "broken": "harness"}, no_input=True)
         tables = None
@@ -98,9 +99,16 @@ def run(ck):
         except Exception as e:
             ck.violation("C20/explain-tables-unreadable", "the immediate-explanation tables of x86formatter.cpp could not be read from the source text: %s" % e,
                          {"broken": "translator gen_explain_tables_v"}, no_input=True)
+        try:
+            ed = vlib.sh([impl], inp="DE\nDF 2\nDF 6\nDT\n", timeout=60)[1].split("\n")
+            files["FmtEnumTables.v"] = G.gen_enum_tables_v(vlib.REPO, *[l.split(" ", 1)[1].split(",") for l in ed[:4]])
+        except Exception as e:
+            ck.violation("C20/enum-tables-unreadable", "the enums of globals.h / cpuinfo.h / type.h or the dumps DE/DF/DT could not be read: %s" % e,
+                         {"broken": "translator gen_enum_tables_v"}, no_input=True)
         ds = vlib.sh([impl], inp="DS\n", timeout=60)[1].split("\n")[0]
         try:
-            files["FmtSourceTables.v"] = G.gen_source_tables_v(ds)
+            ds2 = vlib.sh([impl], inp="DS2\n", timeout=60)[1].split("\n")[0]
+            files["FmtSourceTables.v"] = G.gen_source_tables_v(ds, ds2)
         except Exception as e:
             ck.violation("C20/harness-crash", "harness failed on DS: %s" % e, {"commands": ["DS"], "broken": "harness"}, no_input=True)
         r = own_regen(ck, files)
@@ -122,6 +130,7 @@ def run(ck):
                 if not found:
                     ck.violation("C20/inst-name-tables", "regenerated coq/gen/InstNameTables.v no longer satisfies its lemmas (alias formatting?): %s" % log[-500:],
                                  {"broken": "lemmas of coq/gen/InstNameTables.v"}, no_input=True)
+            enum_tables_failed = "FmtEnumTables.v" in failed       # the python oracles on DE / DF / DT below name the entry; if they find none it is reported there
             if "X86ExplainTables.v" in failed:
                 # the explanation differential below names the concrete lines; here: which table differs from the model's (python comparison with the committed snapshot)
                 try:
@@ -140,13 +149,36 @@ def run(ck):
                                  {"broken": "lemma explain_tables_ok (coq/gen/X86ExplainTables.v)"}, no_input=True)
             if "FmtSourceTables.v" in failed:
                 bad = G.find_bad_source_entries(ds)
+                # the size-word / vector-register tables of DS2: compare with python's own statement (SDM size words; Arm ARM arrangement specifiers)
+                nv0_ = len(ck.violations)
+                try:
+                    sizes_, v64_, v128_ = G.parse_ds2(ds2)
+                    py_sizes = {1: "byte ptr ", 2: "word ptr ", 4: "dword ptr ", 6: "fword ptr ", 8: "qword ptr ", 10: "tbyte ptr ", 16: "xmmword ptr ", 32: "ymmword ptr ", 64: "zmmword ptr "}
+                    for k_, g_ in enumerate(sizes_):
+                        if g_ != py_sizes.get(k_, ""):
+                            ck.violation("C20/source-table/size-word/%d" % k_, "an x86 memory operand of size %d prints %r in front of '['; expected %r" % (k_, g_, py_sizes.get(k_, "")),
+                                         {"command": "O 2 0 M %d 0 0 2 6 0 0 0 0 0 0 0" % k_, "impl": g_})
+                    for t_, got_, cnt in ((10, v64_, {1: 8, 2: 4, 3: 2, 4: 1, 5: 2, 6: 1}), (11, v128_, {1: 16, 2: 8, 3: 4, 4: 2, 5: 4, 6: 2})):
+                        for et_, g_ in enumerate(got_):
+                            w_ = "d3" if (et_ == 0 and t_ == 10) else ("q3" if et_ == 0 else ("v3.%d%s" % (cnt[et_], "?bhsdbh"[et_]) if et_ in cnt else "v3.?"))
+                            if g_ != w_:
+                                ck.violation("C20/source-table/vec%d/%d" % (t_, et_), "the AArch64 vector register (type %d, id 3) with element type %d prints %r; expected %r" % (t_, et_, g_, w_),
+                                             {"command": "O 6 0 V %d 3 %d -1" % (t_, et_), "impl": g_})
+                except Exception:
+                    pass
                 for nm, i, got, want in bad[:6]:
                     ck.violation("C20/source-table/%s/%d" % (nm, i), "the %s name table of the formatter prints entry %d as %r; it is %r" % (nm, i, got, want),
                                  {"command": "DS", "impl": ds, "entry": [nm, i, got, want]})
-                if not bad:
+                if not bad and len(ck.violations) == nv0_:
                     ck.violation("C20/source-tables", "regenerated coq/gen/FmtSourceTables.v no longer satisfies small_tables_check: %s" % log[-500:],
                                  {"broken": "lemma source_small_tables_ok (coq/gen/FmtSourceTables.v)"}, no_input=True)
             if "InstNames.v" in failed:
+                # search: which mnemonic breaks the premise (python's own statement of it) -> concrete line
+                badn = G.find_bad_inst_names(G.load_inst_names(vlib.REPO), G.load_a64_inst_names(vlib.REPO))
+                for arch_, id_, nm_, why_ in badn[:6]:
+                    ck.violation("C20/inst-name/arch%d/id%d" % (arch_, id_), "instruction id %d of %s is called %r, which %s: its lines cannot be read back unambiguously"
+                                 % (id_, "x86" if arch_ == 2 else "AArch64", nm_, why_), {"command": "X %d 0 %d %s 0 N 0" % (arch_, id_, nm_ or "?"), "impl": nm_})
+            if "InstNames.v" in failed and not badn:
                 ck.violation("C20/inst-names", "the instruction-name lists of the InstId enums no longer satisfy names_check (a mnemonic that is a prefix "
                              "keyword / not an identifier, or two x86 ids with one name): %s" % log[-500:],
                              {"broken": "lemma inst_names_ok (coq/gen/InstNames.v)"}, no_input=True)
@@ -165,7 +197,7 @@ def run(ck):
         gen_dir = None     # the other theorems are still checked, against the committed snapshot of the tables
     obl = ck.coq_properties(gen_dir=gen_dir) if gen_dir else ck.coq_properties()
     ck.log("theorems: %d, failed: %d" % (len(obl), len([o for o in obl if not o["ok"]])))
-    mfail = ck.coq_make(["theories/Fmt/TextModel.vo", "theories/Fmt/X86FmtModel.vo", "theories/Fmt/X86InstModel.vo", "theories/Fmt/A64FmtModel.vo", "theories/Fmt/LogLine.vo", "theories/Fmt/LabelVirt.vo", "theories/Fmt/DataNode.vo", "theories/Fmt/X86Explain.vo", "theories/Fmt/RegList.vo", "theories/Fmt/VirtNames.vo", "theories/Fmt/FuncValue.vo", "theories/Fmt/LogOptions.vo", "theories/Fmt/Directives.vo", "theories/Fmt/A64Virt.vo", "theories/Fmt/FuncLine.vo", "theories/Fmt/Transcript.vo", "theories/Fmt/A64VirtRead.vo", "theories/Fmt/A32Regs.vo", "theories/Fmt/NonVacuity.vo"])
+    mfail = ck.coq_make(["theories/Fmt/TextModel.vo", "theories/Fmt/X86FmtModel.vo", "theories/Fmt/X86InstModel.vo", "theories/Fmt/A64FmtModel.vo", "theories/Fmt/LogLine.vo", "theories/Fmt/LabelVirt.vo", "theories/Fmt/DataNode.vo", "theories/Fmt/X86Explain.vo", "theories/Fmt/RegList.vo", "theories/Fmt/VirtNames.vo", "theories/Fmt/FuncValue.vo", "theories/Fmt/LogOptions.vo", "theories/Fmt/Directives.vo", "theories/Fmt/A64Virt.vo", "theories/Fmt/FuncLine.vo", "theories/Fmt/Transcript.vo", "theories/Fmt/A64VirtRead.vo", "theories/Fmt/A32Regs.vo", "theories/Fmt/LogInsts.vo", "theories/Fmt/Strict.vo", "theories/Fmt/StrictOps.vo", "theories/Fmt/EnumNames.vo", "theories/Fmt/EnvCheck.vo", "theories/Fmt/LogIndent.vo", "theories/Fmt/DataBytes.vo", "theories/Fmt/DomainCheck.vo", "theories/Fmt/FuncCheck.vo", "theories/Fmt/PlainLog.vo", "theories/Fmt/StrictSmall.vo", "theories/Fmt/NodeRead.vo", "theories/Fmt/NonVacuity.vo"])
     if mfail:
         raise RuntimeError("model theories do not compile: %s %s" % (mfail, getattr(ck, "coq_log", "")[-800:]))
     model = ck.ocaml_model("Extract_Fmt.v", ["zconv.ml", "c20_driver.ml"], name="c20")
@@ -299,6 +331,26 @@ def run(ck):
                              {"command": cmd, "impl": x, "model": y})
             elif k == "Y":
                 phase2.append((cmd, x, y, "P D | %s" % x[2:]))
+            elif k == "Z" and cmd.split()[2] == "-" and not (int(cmd.split()[1]) & 512 and cmd.split()[3] != "0") and cmd.split()[4] in ("L", "A", "S", "EL", "EX", "CP", "SN"):
+                # non-instruction Builder nodes without inline comment / position prefix: the proven reader NodeRead.parse_node_body on AsmJit's text
+                fz = cmd.split()
+                kz = fz[4]
+                if kz == "L":
+                    wz = "L 0"
+                elif kz == "A":
+                    wz = "A %s %s" % ("0" if fz[5] == "0" else "1", fz[6])
+                elif kz == "S":
+                    wz = "S %s" % fz[5]
+                elif kz == "EL":
+                    wz = "EL %s" % fz[5]
+                elif kz == "EX":
+                    wz = "EX %s %s" % (fz[5], fz[6])
+                elif kz == "CP":
+                    n_, m2_ = int(fz[5]), int(fz[6])
+                    wz = "CP %d %d" % (8 * n_ if m2_ == 0 else ((8 * n_ + 15) // 16) * 16 + 16 * m2_, 16 if m2_ > 0 else (8 if n_ > 0 else 0))
+                else:
+                    wz = "SN %s" % fz[5]
+                phase2.append((cmd, x, wz, "P ZN | %s" % x[2:]))
             elif k == "Z" and cmd.split()[4] == "D":
                 # independent judgement: the node emits size*count*repeat bytes; "TotalSize" must say so
                 size, count, rep = (int(v) for v in cmd.split()[5:8])
@@ -477,6 +529,35 @@ def run(ck):
             ck.violation("C20/log-transcript/%s" % re.sub(r"\W+", "_", r_[0][1])[:100], "a log of %d lines reads back (proven parse_log / columns_bytes) as %r; the appended bytes are %s; log: %r"
                          % (len(r_), a[3:200], want_hex[:200], "".join(lg for _, lg in r_)[:400]), {"impl": "".join(lg for _, lg in r_), "bytes": want_hex})
 
+    # ---------------------------------------------------------------- whole logs WITHOUT kMachineCode (PlainLog.v, the default logger flags): runs of consecutive such lines as ONE
+    # text through the proven parse_plain_log: every line gives the model's instruction text and the comment
+    runs, cur = [], []
+    for ei, (cmd, x, y) in enumerate(zip(ses, si, sm)):
+        m_ = re.match(r"E 0 (\S+) (.*)$", x)
+        if m_ and not int(cmd.split()[2]) & 1 and m_.group(2).endswith("$") and "$" not in m_.group(2)[:-1] and ses_eff[ei] == cmd and not G.uses_named_label(cmd):
+            cur.append((m_.group(2), mtext(cmd, y), G.e_comment(cmd)))
+            if len(cur) == 40:
+                runs.append(cur); cur = []
+        elif cur:
+            runs.append(cur); cur = []
+    if cur:
+        runs.append(cur)
+    runs = [r_ for r_ in runs if len(r_) >= 2][:(60 if ck.tier == "quick" else 2000)]
+    tp = run_exe(model, ["PLP | %s" % "".join(lg for lg, _, _ in r_) for r_ in runs], args=margs) if runs else []
+    if isinstance(tp, tuple):
+        ck.violation("C20/harness-crash", "model driver failed on plain logs: %s" % (tp,), {"broken": "ml/c20_driver.ml"}, no_input=True)
+        tp = []
+    tr_stat["plain_logs"] = tr_stat["plain_lines"] = tr_stat["plain_logs_agree"] = 0
+    for r_, a in zip(runs, tp):
+        tr_stat["plain_logs"] += 1
+        tr_stat["plain_lines"] += len(r_)
+        want_ = "PLP " + " ||| ".join("%s ### %s" % (t_, c_) for _, t_, c_ in r_)
+        if a == want_:
+            tr_stat["plain_logs_agree"] += 1
+        else:
+            ck.violation("C20/plain-log-transcript/%s" % re.sub(r"\W+", "_", r_[0][0])[:100], "a log of %d lines without kMachineCode reads back (proven parse_plain_log) as %r; expected %r; log: %r"
+                         % (len(r_), a[4:300], want_[4:300], "".join(lg for lg, _, _ in r_)[:400]), {"impl": "".join(lg for lg, _, _ in r_)})
+
     # ---------------------------------------------------------------- messages of refused instructions
     fm_stat = {"messages": 0, "agree": 0, "agree_with_assembler_added_option": 0, "without_instruction_text": 0}
     fm_alt = []
@@ -527,6 +608,11 @@ def run(ck):
                              {"command": "DT", "impl": dt, "id": id_})
             else:
                 ck.violation("C20/type-name/%d" % id_, "Formatter::format_type_id(%d) prints %r; the TypeId enum calls it %r" % (id_, g_, tnames[id_]), {"command": "DT", "impl": dt, "id": id_})
+
+    if enum_tables_failed and not any(v.get("key", "").startswith(("C20/error-name", "C20/feature-name", "C20/type-name", "C20/x86-feature-max-value", "C20/mask-mmx-type-names"))
+                                       for v in ck.violations):
+        ck.violation("C20/enum-tables", "regenerated coq/gen/FmtEnumTables.v no longer satisfies enum_tables_ok although python's oracles find no differing entry "
+                     "(the naming rules of EnumNames.v and of tools/c20_gen.py disagree)", {"broken": "lemma enum_tables_ok (coq/gen/FmtEnumTables.v)"}, no_input=True)
 
     def plain_flags(c):
         f_ = c.split()
@@ -700,7 +786,7 @@ def run(ck):
             if n > 1:
                 dq.append((c, a, "%d %d" % (int(f[3]), n), "P ED %s A | %s" % (f[1], body)))
         elif kind in "BT":
-            dq.append((c, a, hx, "P D | %s" % body))
+            dq.append((c, a, hx, "P DB | %s" % body))      # the bytes the line denotes, computed by the extracted parse_data + data_bytes (C20_data_line_denotes_bytes)
         elif kind == "L":
             if after - before != int(f[6]):
                 ck.violation("C20/directive-size/" + key, "%r logged %r but %d bytes were appended" % (c, lg, after - before), {"command": c, "impl": a})
@@ -717,12 +803,11 @@ def run(ck):
         kind = c.split()[4]
         key = re.sub(r"\s+", "_", c)[:120]
         if kind in "BT":
-            b = G.directive_bytes_from_parsed(got)
-            if b is not None and b.hex() == want:
+            if got == "P " + want:
                 dd_stat["data_lines_denote_appended_bytes"] += 1
             else:
-                ck.violation("C20/directive-data/" + key, "%r: the logged line %r reads (proven parse_data) as %r = bytes %s; appended were %s"
-                             % (c, q.split(" | ", 1)[1], got[2:], b.hex() if b is not None else None, want), {"command": c, "impl": a})
+                ck.violation("C20/directive-data/" + key, "%r: the logged line %r denotes (proven parse_data + data_bytes) the bytes %s; appended were %s"
+                             % (c, q.split(" | ", 1)[1], got[2:], want), {"command": c, "impl": a})
         elif got == "P " + want:
             dd_stat["align_lines_read_back" if kind == "A" else "label_lines_read_back"] += 1
         else:
@@ -893,6 +978,7 @@ def run(ck):
         p2 = []
     parsed_ok = 0
     unsupported = {}
+    dom_stat = {}
     for (cmd, x, y, pc), a in zip(phase2, p2):
         k = pc[0]
         if k == "P" and cmd.startswith("RL "):
@@ -908,6 +994,13 @@ def run(ck):
             else:
                 ck.violation("C20/data-parse/%s" % re.sub(r"\s+", "_", cmd)[:120],
                              "format_data prints %r for %r; the proven parser reads %r, the bytes are %r" % (x[2:], cmd, a, G.data_expect(cmd)),
+                             {"command": cmd, "impl": x})
+            continue
+        if k == "P" and pc.startswith("P ZN "):
+            if a == "P " + y:
+                parsed_ok += 1
+            else:
+                ck.violation("C20/node-parse/%s" % re.sub(r"\s+", "_", cmd)[:120], "the Builder node text %r of %r reads back (proven reader) as %r, expected %r" % (x[2:], cmd, a[2:], y),
                              {"command": cmd, "impl": x})
             continue
         if k == "P" and pc.startswith("P R5 "):
@@ -956,11 +1049,25 @@ def run(ck):
                                  {"command": cmd, "impl": x, "model": y, "broken": "correspondence of Fmt model with /repo (text)"}, no_input=True)
                 continue
             od = (G.a64_outside_domain if a6 else G.outside_domain)(cmd)
+            # the domain of the round-trip theorems as the extracted, proven-sound decision procedure sees it (DomainCheck.inst_okb & co.): a mismatch
+            # INSIDE it contradicts a theorem and is reported whatever python's own classification says
+            coq_dom = "in" if a.endswith(" DOMAIN=in") else ("out" if a.endswith(" DOMAIN=out") else "?")
+            dom_stat[coq_dom] = dom_stat.get(coq_dom, 0) + 1
+            if od and coq_dom == "in":
+                dom_stat["python_outside_but_coq_inside"] = dom_stat.get("python_outside_but_coq_inside", 0) + 1
+                od = None
             if od:
                 unsupported[od] = unsupported.get(od, 0) + 1
                 if x != y:
-                    ck.violation("C20/correspondence/" + cmd[0], "text differs from the model's on an input outside the parser's domain: %r impl %r model %r" % (cmd, x, y),
-                                 {"command": cmd, "impl": x, "model": y, "broken": "correspondence of Fmt model with /repo (text)"}, no_input=True)
+                    # sharper search: do the two texts DENOTE different things for the independent reader? then the input is a concrete failing input even
+                    # though it is outside the proven parsers' domain (e.g. a displacement printed wrongly under a non-architectural size)
+                    rx_, ry_ = G.py_read(cmd, x[2:]), G.py_read(cmd, y[2:])
+                    if rx_ is not None and ry_ is not None and rx_ != ry_:
+                        ck.violation("C20/outside-domain-text/%s" % re.sub(r"\s+", "_", cmd)[:120], "%r (outside the parsers' domain: %s): AsmJit prints %r, the model %r; the independent "
+                                     "reader reads them as %r and %r" % (cmd, od, x[2:], y[2:], rx_, ry_), {"command": cmd, "impl": x, "model": y})
+                    else:
+                        ck.violation("C20/correspondence/" + cmd[0], "text differs from the model's on an input outside the parser's domain: %r impl %r model %r" % (cmd, x, y),
+                                     {"command": cmd, "impl": x, "model": y, "broken": "correspondence of Fmt model with /repo (text)"}, no_input=True)
                 continue
             key = G.a64_violation_key(cmd) if a6 else G.violation_key(cmd, x)
             ck.violation(key, "AsmJit prints %r for %r; read back (Coq parser: %s; python reader: %s) this is not the given instruction/operand%s"
@@ -1008,7 +1115,7 @@ def run(ck):
                  "classes x broadcast, immediates, labels; lines: option prefixes, {k}{z}, {er}/{sae}, 0..6 operands; E: random instruction ids x operand "
                  "templates really emitted with a StringLogger); distinct_nontrivial counts distinct texts produced by the implementation",
          "samples": samples, "commands_by_kind": kinds, "emitted_ok": e_ok, "emitted_ok_by_arch": {"x86-64": e_arch.get("2", 0), "aarch64": e_arch.get("6", 0)}, "emitted_with_named_labels": named, "assembler_added_rex_option": rex_added, "assembler_added_short_option": short_added, "assembler_chose_unscaled_form": unscaled_renamed, "emit_refused_by_error": {str(k): v for k, v in sorted(e_err.items())},
-         "texts_parsed_back_by_proven_parser": parsed_ok, "unsupported": unsupported,
+         "texts_parsed_back_by_proven_parser": parsed_ok, "unsupported": unsupported, "mismatches_by_coq_domain_check": dom_stat,
          "proved_vs_compared": {
              "proved_for_all_inputs (Coq, closed under the global context)": [
                  "numbers: every 64-bit value x base 2/8/10/16 x all flags x every width; machine-code column: every byte list x rel x imm",
